@@ -7,6 +7,7 @@ import (
 	"io"
 	"math"
 	"math/rand"
+	"strings"
 
 	"github.com/prometheus/prometheus/model/histogram"
 	"github.com/prometheus/prometheus/model/labels"
@@ -26,8 +27,25 @@ type input struct {
 	Samples []downsampleutil.RawS `json:"samples"`
 }
 
+// the PromQL functions whose read-back the property is about, in the order count, sum, min, max
+var readFuncs = []string{"count_over_time", "sum_over_time", "min_over_time", "max_over_time"}
+
 func facts(repo string, w io.Writer) error {
-	return downsampleutil.WindowFacts(repo, w)
+	if err := downsampleutil.WindowFacts(repo, w); err != nil {
+		return err
+	}
+	// aggrsFromFunc of the linked querier (storepb.Aggr numbers: RAW=0 COUNT=1 SUM=2 MIN=3 MAX=4 COUNTER=5)
+	fmt.Fprintln(w, "(* pkg/query/querier.go: aggrsFromFunc, evaluated on the linked code *)")
+	var rows []string
+	for _, f := range append(append([]string{}, readFuncs...), "count", "min", "max", "sum", "avg_over_time", "rate", "increase") {
+		var as []string
+		for _, a := range query.VerifC36AggrsFromFunc(f) {
+			as = append(as, fmt.Sprintf("%d", int(a)))
+		}
+		rows = append(rows, fmt.Sprintf("(%s, [%s])", common.CoqString(f), strings.Join(as, "; ")))
+	}
+	fmt.Fprintf(w, "Definition aggrs_from_func : list (string * list Z) :=\n  [%s]%%string.\n", strings.Join(rows, ";\n   "))
+	return nil
 }
 
 // one-series storepb.SeriesSet
@@ -57,7 +75,7 @@ func xor(c chunkenc.Chunk) *storepb.Chunk {
 
 // readback reads one aggregate of the chunks through pkg/query's chunkSeries
 // (the translation AggrChunk -> storepb.AggrChunk is what the store gateway does).
-func readback(metas []chunks.Meta, aggr storepb.Aggr) ([]downsampleutil.S, error) {
+func readback(metas []chunks.Meta, aggrs []storepb.Aggr) ([]downsampleutil.S, error) {
 	var cs []storepb.AggrChunk
 	for _, m := range metas {
 		ac := m.Chunk.(*downsample.AggrChunk)
@@ -76,7 +94,7 @@ func readback(metas []chunks.Meta, aggr storepb.Aggr) ([]downsampleutil.S, error
 	if len(cs) == 0 {
 		return nil, nil
 	}
-	set := query.NewPromSeriesSet(&oneSeries{chks: cs}, math.MinInt64, math.MaxInt64, []storepb.Aggr{aggr}, nil)
+	set := query.NewPromSeriesSet(&oneSeries{chks: cs}, math.MinInt64, math.MaxInt64, aggrs, nil)
 	if !set.Next() {
 		return nil, fmt.Errorf("no series")
 	}
@@ -137,7 +155,12 @@ func run(raw json.RawMessage) (common.Case, error) {
 		return c, err
 	}
 	var rbs []string
-	for _, a := range []storepb.Aggr{storepb.Aggr_COUNT, storepb.Aggr_SUM, storepb.Aggr_MIN, storepb.Aggr_MAX} {
+	for _, f := range readFuncs {
+		// the aggregates the querier selects for this function (querier.Select -> aggrsFromFunc)
+		a := query.VerifC36AggrsFromFunc(f)
+		if len(a) != 1 {
+			return c, fmt.Errorf("aggrsFromFunc(%s) = %v: not a single aggregate", f, a)
+		}
 		rb, err := readback(metas, a)
 		if err != nil {
 			return c, fmt.Errorf("readback %v: %w", a, err)
@@ -204,6 +227,6 @@ func gen(r *rand.Rand, tier string, n int) []any {
 }
 
 func main() {
-	common.Main(common.Prop{ID: "C36", Facts: facts, Gen: gen, Run: run, QuickN: 110, ThoroughN: 400,
+	common.Main(common.Prop{ID: "C36", Facts: facts, Gen: gen, Run: run, QuickN: 110, ThoroughN: 1200,
 		Preamble: "From Verif Require Import Lib.Downsample_Core.\nOpen Scope Z_scope.\n"})
 }
